@@ -44,8 +44,36 @@ func c16Many() []c16Case {
 	return out
 }
 
+// c16Reached: the marked element is reached in every way the evaluator can reach an element - directly, as the head of a v-if chain, as
+// a selected v-else-if / v-else member, as the v-else of an empty loop - and is marked in each way an element can be instantiated more
+// than once: it carries the v-for itself, or it stands inside a loop, or inside a component included three times. One emission in every case.
+func c16Reached() []c16Case {
+	reaches := []struct{ name, before, dir, after string }{
+		{"direct", ``, ``, ``},
+		{"if-head", ``, ` v-if="items"`, `<u v-else>E</u>`},
+		{"else-if-member", `<u v-if="nope">N</u>`, ` v-else-if="items"`, `<u v-else>E</u>`},
+		{"else-member", `<u v-if="nope">N</u>`, ` v-else`, ``},
+		{"else-of-empty-loop", `<u v-for="n in nothing">{{ n }}</u>`, ` v-else`, ``},
+	}
+	var out []c16Case
+	for _, rc := range reaches {
+		own := rc.before + `<li` + rc.dir + ` v-for="x in items" v-once>M1 {{ x }}</li>` + rc.after
+		// (a head that carries both v-if and v-for is the per-item filter of C04, not a chain head: not generated)
+		if rc.name != "if-head" {
+			out = append(out, c16Case{"reached-" + rc.name + "-looped-itself", map[string]string{"p.vuego": `<ul>` + own + `</ul><b>M2</b>`}, "p.vuego", map[string]int{"M1": 1, "M2": 1}})
+		}
+		inner := rc.before + `<i` + rc.dir + ` v-once>M1</i>` + rc.after + `<b>M2</b>`
+		out = append(out, c16Case{"reached-" + rc.name + "-in-loop", map[string]string{"p.vuego": `<div v-for="x in items">` + inner + `</div>`}, "p.vuego", map[string]int{"M1": 1, "M2": 3}})
+		out = append(out, c16Case{"reached-" + rc.name + "-in-component-thrice", map[string]string{"p.vuego": `<template include="c.vuego"></template><template include="c.vuego"></template><template include="c.vuego"></template>`, "c.vuego": inner}, "p.vuego", map[string]int{"M1": 1, "M2": 3}})
+		if rc.name != "if-head" {
+			out = append(out, c16Case{"reached-" + rc.name + "-looped-itself-in-component-twice", map[string]string{"p.vuego": `<template include="c.vuego"></template><template include="c.vuego"></template>`, "c.vuego": `<ul>` + own + `</ul><b>M2</b>`}, "p.vuego", map[string]int{"M1": 1, "M2": 2}})
+		}
+	}
+	return out
+}
+
 func c16Cases() []c16Case {
-	return append(c16Fixed(), c16Many()...)
+	return append(append(c16Fixed(), c16Many()...), c16Reached()...)
 }
 
 func c16Fixed() []c16Case {
